@@ -1284,8 +1284,10 @@ def _names_bound_in_block(lines: List[str]) -> Set[str]:
 
     import textwrap
 
+    # comment-only lines may sit at any column and would defeat the dedent
+    code = [ln for ln in lines if ln.strip() and not ln.lstrip().startswith("#")]
     try:
-        tree = ast.parse(textwrap.dedent("\n".join(lines)))
+        tree = ast.parse(textwrap.dedent("\n".join(code)))
     except (SyntaxError, ValueError, RecursionError):
         return set()
 
